@@ -93,6 +93,8 @@ pub struct WalkReport {
     pub freed: Vec<usize>,
     /// number of thread objects reached (not descended into)
     pub threads: usize,
+    /// type of each entry of `objects`
+    pub types: Vec<&'static str>,
 }
 
 struct Walk {
@@ -106,7 +108,8 @@ thread_local! {
 
 /// Called by `Gc::mark`. `None` when no walk is active on this OS thread, otherwise whether the
 /// object was reached before (then it must not be traversed again)
-pub fn visit(addr: usize, owner: u64, freed: bool, is_thread: bool) -> Option<bool> {
+pub fn visit(addr: usize, owner: u64, freed: bool, type_name: &'static str) -> Option<bool> {
+    let is_thread = type_name.ends_with("thread::Thread");
     WALK.with(|w| {
         let mut w = w.borrow_mut();
         let w = w.as_mut()?;
@@ -122,6 +125,7 @@ pub fn visit(addr: usize, owner: u64, freed: bool, is_thread: bool) -> Option<bo
         }
         w.report.reached += 1;
         w.report.objects.push((addr, owner));
+        w.report.types.push(type_name);
         if freed {
             w.report.freed.push(addr);
             // do not look inside a swept (poisoned) object
